@@ -461,7 +461,12 @@ static void ComputeMacroStrings(PInputTag Tag) {
     /* recompute # of params */
 
     if (Tag->UsesNumArgs) {
-        as_snprintf(Tag->NumArgs, sizeof(Tag->NumArgs), "%" PRId32, Tag->ParCnt);
+        LongInt Count = 0;
+
+        for (Lauf = Tag->Params; Lauf; Lauf = Lauf->Next) {
+            Count++;
+        }
+        as_snprintf(Tag->NumArgs, sizeof(Tag->NumArgs), "%" PRId32, Count);
     }
 
     /* recompute 'all string' parameter */
@@ -1133,8 +1138,19 @@ static void ExpandSHIFT(void) {
         }
 
         if ((RunTag) && (RunTag->Params)) {
+            StringRecPtr Lauf;
+            LongInt      Remain = 0;
+
             GetAndCutStringList(&(RunTag->Params));
-            RunTag->ParCnt--;
+
+            /* a formal parameter stays bound as long as an argument is left for it */
+
+            for (Lauf = RunTag->Params; Lauf; Lauf = Lauf->Next) {
+                Remain++;
+            }
+            if (RunTag->ParCnt > Remain) {
+                RunTag->ParCnt = Remain;
+            }
             ComputeMacroStrings(RunTag);
         }
     }
